@@ -120,7 +120,11 @@ def to_timedelta(obj, numbers_as=None):
     if isinstance(obj, timedelta):
         return obj
     elif isinstance(obj, Number):
-        return timedelta(**{numbers_as: int(obj)})
+        # timedelta does not accept numpy scalars but python numbers,
+        # including fractions of the unit:
+        if isinstance(obj, np.generic):
+            obj = obj.item()
+        return timedelta(**{numbers_as: obj})
     else:
         return pd.to_timedelta(obj).to_pytimedelta()
 
